@@ -1000,6 +1000,11 @@ class Verifier:
         yt = self.c.yields
         if yt is None:
             raise Unsupported('yield without `yields` type in contract')
+        if not self.spec_mode and self.c.yield_each_local and not self.inline_depth:
+            cv = as_sv(val, yt)
+            for e in self.c.yield_each_local:
+                g = self.eval_spec_bool(e, st, {'c': cv})
+                self.oblige(st, g, 'post', 'every yielded c (witnesses: locals at the yield): ' + e, node)
         if not self.spec_mode and (self.c.yield_each or self.c.yield_key):
             # generator proof rule: a property of each element that mentions only entry values
             # and the element, proved at every yield, holds for every element of the result;
